@@ -79,7 +79,14 @@ def generate(prop, rng, tier):
     cfg = {'cls': cls, 'shape': shape, 'dtype': dtype,
            'impl': rng.choice(['numpy', 'pyfftw', 'pyfftw']),
            'axes': sorted(rng.sample(range(nd), rng.randint(1, nd))),
+           'axes_order': rng.random(),
            'sign': rng.choice(['-', '-', '-', '+'])}
+    if cfg.pop('axes_order') < 0.25 and len(cfg['axes']) > 1:
+        # axes given in another than ascending order (the last one listed is
+        # the half-complex axis), sometimes as negative indices
+        rng.shuffle(cfg['axes'])
+        if rng.random() < 0.4:
+            cfg['axes'] = [a - nd for a in cfg['axes']]
     if np.dtype(dtype).kind == 'f':
         cfg['halfcomplex'] = rng.random() < 0.6
     else:
